@@ -399,6 +399,10 @@ inline int run(int argc, char** argv, const std::vector<Scenario>& scs) {
         ++sc_index;
         if (!only.empty() && sc.name.find(only) == std::string::npos) continue;
         if (sc.whole && sc_index % A.nshards != A.shard) continue;
+        if (vh::past_deadline()) {
+            vh::cap("deadline reached: scenario " + sc.name + " and later ones not explored");
+            break;
+        }
         int B = A.thorough() ? sc.bound_thorough : sc.bound_quick;
         B += (int)bound_delta;
         if (B < 0) B = 0;
